@@ -462,7 +462,14 @@ async fn on_commitment_revocation(
 
     let proxy = plugin.state().lock().unwrap().proxy.clone();
 
-    for (tower_id, net_addr, status) in towers {
+    for (tower_id, net_addr, _) in towers {
+        // The list above was built before sending anything, and sending takes time: check the current status of the tower
+        // (it may have been flagged as misbehaving, become unreachable or even been abandoned meanwhile).
+        let status = match plugin.state().lock().unwrap().get_tower_status(&tower_id) {
+            Some(status) => status,
+            None => continue,
+        };
+
         // The same revocation may be notified more than once (e.g. after a restart). Towers that already have the
         // appointment, or for which it is already waiting to be sent (or was rejected), need nothing else.
         if plugin
